@@ -31,7 +31,10 @@ func vUpstreamStartQuery(up *vConn) string {
 	return ""
 }
 
+var vFragmentEvents bool
+
 func VerifEvents() {
+	vFragmentEvents = verifChoice("fragmented-events", 2) == 1
 	var opts []GatewayOption
 	cached := verifParam("cached", 0) == 1
 	if cached {
@@ -116,6 +119,13 @@ func VerifEvents() {
 			msg := vServerData("1", data)
 			if partial {
 				msg, _ = json.Marshal(map[string]interface{}{"type": "data", "id": "1", "payload": map[string]interface{}{"data": data, "errors": []interface{}{map[string]interface{}{"message": "partial " + subs[n].id, "extensions": map[string]interface{}{"code": "E7"}, "path": []interface{}{"humanChanged", "age"}}}}})
+			}
+			if vFragmentEvents {
+				// the owning service (or a proxy in front of it) splits the message into two frames
+				if !up.vSendFragmented(msg) {
+					return
+				}
+				continue
 			}
 			if !up.vSend(msg) {
 				return
